@@ -47,6 +47,7 @@ type Engine struct {
 	withLemmas bool
 	pureBody   map[*ssa.Function]bool
 	cache      *proofCache
+	verifDir   string
 	localChecks int
 }
 
@@ -248,7 +249,11 @@ func (e *Engine) typeID(t types.Type) int {
 	if id, ok := e.tids[k]; ok {
 		return id
 	}
-	id := len(e.tids) + 1
+	// stable across runs and independent of the order in which types are met (proof cache keys)
+	id := int(hashString("tid:"+k)%1000000000) + 1
+	for e.tidType[id] != nil {
+		id++
+	}
 	e.tids[k] = id
 	e.tidType[id] = t
 	return id
@@ -257,7 +262,7 @@ func (e *Engine) typeID(t types.Type) int {
 func (e *Engine) globalBlock(g *ssa.Global) *Term {
 	id, ok := e.globals[g]
 	if !ok {
-		id = -int64(len(e.globals)+len(e.ghostGlobals)) - 1000
+		id = -int64(hashString("global:"+g.String())%1000000000) - 1000
 		e.globals[g] = id
 	}
 	return IntLit(id)
@@ -266,7 +271,7 @@ func (e *Engine) globalBlock(g *ssa.Global) *Term {
 func (e *Engine) ghostBlock(name string) *Term {
 	id, ok := e.ghostGlobals[name]
 	if !ok {
-		id = -int64(len(e.globals)+len(e.ghostGlobals)) - 1000
+		id = -int64(hashString("ghost:"+name)%1000000000) - 4000000000 // ghost blocks live below every pointer value
 		e.ghostGlobals[name] = id
 	}
 	return IntLit(id)
@@ -275,7 +280,10 @@ func (e *Engine) ghostBlock(name string) *Term {
 func (e *Engine) funcID(fn *ssa.Function) *Term {
 	id, ok := e.fnIDs[fn]
 	if !ok {
-		id = -int64(len(e.fnIDs)) - 1000000
+		id = -int64(hashString("fn:"+fn.String())%1000000000) - 2000000000
+		for e.fnByID[id] != nil {
+			id--
+		}
 		e.fnIDs[fn] = id
 		e.fnByID[id] = fn
 	}
@@ -286,7 +294,7 @@ func (e *Engine) strLit(s string) *Term {
 	if t, ok := e.strLits[s]; ok {
 		return t
 	}
-	name := fmt.Sprintf("str_%d_%s", len(e.strLits), sanitize(truncate(s, 24)))
+	name := fmt.Sprintf("str_%x_%s", hashString(s)%0xffffff, sanitize(truncate(s, 24)))
 	if s == "" {
 		name = "str_empty"
 	}
@@ -307,7 +315,9 @@ func truncate(s string, n int) string {
 func (e *Engine) stringAxioms(used map[string]bool) []*Term {
 	var lits []*Term
 	var out []*Term
-	for _, s := range e.strOrder {
+	order := append([]string(nil), e.strOrder...)
+	sort.Strings(order)
+	for _, s := range order {
 		t := e.strLits[s]
 		if !used[t.name] {
 			continue
